@@ -359,7 +359,8 @@ func runProxyCase(k *toks, o *out) {
 	} else {
 		os.Unsetenv("KEEP_NEXT_HOP_ROUTE")
 	}
-	_ = k.int() // dialog timeout
+	os.Unsetenv("DEFAULT_DIALOG_TIMEOUT") // a dialogTimeout <= 0 stands for the built-in default (the model's reading)
+	_ = k.int()                           // dialog timeout
 	for n := k.int(); n > 0 && !k.bad; n-- {
 		k.str()
 		k.str()
